@@ -63,7 +63,24 @@ type opt struct {
 	Seq *ast       `json:"seq"`
 }
 
+type iaSpec struct {
+	ISD int   `json:"isd"`
+	AS  []int `json:"as"`
+	Rej int   `json:"rej"`
+}
+
+type polDef struct {
+	ACL    []aclEntry `json:"acl"`
+	Seq    *ast       `json:"seq"`
+	Opts   []opt      `json:"opts"`
+	Local  []iaSpec   `json:"local"`
+	Remote []iaSpec   `json:"remote"`
+	Ext    []int      `json:"ext"`
+}
+
 type rec struct {
+	Top   *polDef         `json:"top,omitempty"`
+	Pool  []polDef        `json:"pool,omitempty"`
 	Ev    string          `json:"ev"`
 	Fam   string          `json:"fam,omitempty"`
 	Paths [][]hop         `json:"paths,omitempty"`
@@ -390,6 +407,74 @@ func main() {
 					pol := pathpol.NewPolicy("p", acl, seq, options)
 					out["kept"] = positions(pol.Filter(ps))
 				}
+				w.Emit(out)
+			})
+		case "ext":
+			out := vt.M{"ev": "ext", "top": rc.Top, "pool": rc.Pool, "panic": 0, "err": 0, "inp": []int{}, "kept": []int{}}
+			safely(w, out, func() {
+				var firstErr error
+				mk := func(name string, d *polDef) *pathpol.ExtPolicy {
+					acl, _, err := buildACL(d.ACL)
+					if err != nil && firstErr == nil {
+						firstErr = err
+					}
+					seq, _, err := buildSeq(d.Seq, r)
+					if err != nil && firstErr == nil {
+						firstErr = err
+					}
+					var options []pathpol.Option
+					for _, o := range d.Opts {
+						oacl, _, err := buildACL(o.ACL)
+						if err != nil && firstErr == nil {
+							firstErr = err
+						}
+						oseq, _, err := buildSeq(o.Seq, r)
+						if err != nil && firstErr == nil {
+							firstErr = err
+						}
+						options = append(options, pathpol.Option{Weight: o.W,
+							Policy: &pathpol.ExtPolicy{Policy: &pathpol.Policy{ACL: oacl, Sequence: oseq}}})
+					}
+					p := pathpol.NewPolicy(name, acl, seq, options)
+					if len(d.Local) > 0 {
+						li := &pathpol.LocalISDAS{}
+						for _, x := range d.Local {
+							li.AllowedIAs = append(li.AllowedIAs, mkIA(x.ISD, x.AS))
+						}
+						p.LocalISDAS = li
+					}
+					if len(d.Remote) > 0 {
+						ri := &pathpol.RemoteISDAS{}
+						for _, x := range d.Remote {
+							ri.Rules = append(ri.Rules, pathpol.ISDASRule{IA: mkIA(x.ISD, x.AS), Reject: x.Rej == 1})
+						}
+						p.RemoteISDAS = ri
+					}
+					ext := []string{}
+					for _, k := range d.Ext {
+						ext = append(ext, fmt.Sprintf("p%d", k))
+					}
+					return &pathpol.ExtPolicy{Extends: ext, Policy: p}
+				}
+				var pool []*pathpol.ExtPolicy
+				for i := range rc.Pool {
+					pool = append(pool, mk(fmt.Sprintf("p%d", i+1), &rc.Pool[i]))
+				}
+				top := mk("top", rc.Top)
+				idx, ps := mkInput(r.Intn(2) == 0)
+				out["inp"] = idx
+				if firstErr != nil {
+					out["err"] = 1
+					w.Emit(out)
+					return
+				}
+				pol, err := pathpol.PolicyFromExtPolicy(top, pool)
+				if err != nil {
+					out["err"] = 1
+					w.Emit(out)
+					return
+				}
+				out["kept"] = positions(pol.Filter(ps))
 				w.Emit(out)
 			})
 		default:
